@@ -11,8 +11,9 @@ import (
 const serfPkg = "github.com/hashicorp/serf/serf"
 
 type tokenRec struct {
-	typ types.Type
-	val Value
+	typ   types.Type
+	val   Value
+	isNil bool
 }
 
 func deepCopy(v Value, seen map[Ptr]Ptr) Value {
@@ -72,7 +73,14 @@ func (p *Path) putToken(first *Term, msg Iface) Slice {
 	if pt, ok := typ.Underlying().(*types.Pointer); ok {
 		ptr := val.(Ptr)
 		if ptr == nil {
-			panic(engineError("encode of nil pointer"))
+			// msgpack encodes a nil pointer as nil; decoding nil leaves the destination untouched
+			id := len(p.tokens)
+			p.tokens = append(p.tokens, tokenRec{typ: pt.Elem(), isNil: true})
+			out := Slice{}
+			if first != nil {
+				out = append(out, first)
+			}
+			return append(out, p.e.byteConst[tokenMagic], p.e.byteConst[id])
 		}
 		typ = pt.Elem()
 		val = *ptr
@@ -108,6 +116,9 @@ func (p *Path) getToken(buf Slice, out Iface) bool {
 	}
 	if !types.Identical(pt.Elem(), tok.typ) {
 		return false
+	}
+	if tok.isNil {
+		return true
 	}
 	ptr := out.V.(Ptr)
 	*ptr = deepCopy(tok.val, map[Ptr]Ptr{})
